@@ -10,105 +10,8 @@ import itertools
 from harness import deferredk as K
 from harness.common import Failure, Spec
 
-# ---------------------------------------------------------------------------------------------------
-# reference interpreter (recursive; follows the documented rules, not the implementation's loop)
-
-_NO = object()
-
-
-class RD:
-    def __init__(self):
-        self.callbacks = []     # ("pair", k, cb, eb) | ("cont", waiting RD index)
-        self.result = _NO
-        self.called = False
-        self.paused = 0
-
-
-def _show(v):
-    if v is None:
-        return "N"
-    if isinstance(v, tuple):
-        return {"F": "E%d", "D": "D%d"}[v[0]] % v[1]
-    return str(v)
-
-
-def _is_fail(v):
-    return isinstance(v, tuple) and v[0] == "F"
-
-
-def _val(v):
-    return None if v[0] == "N" else v[1] if v[0] == "I" else (v[0], v[1])
-
-
-def reference(case) -> str:
-    ds = [RD() for _ in case["canc"]]
-    events = []
-
-    def run(i):
-        d = ds[i]
-        while not d.paused and d.callbacks:
-            item = d.callbacks.pop(0)
-            if item[0] == "cont":
-                c = ds[item[1]]
-                c.result, d.result = d.result, None      # hand the result over
-                c.paused -= 1                            # ... unpause the waiting Deferred and let it run
-                run(item[1])
-                continue
-            _, k, cb, eb = item
-            beh = eb if _is_fail(d.result) else cb
-            if beh is not None:
-                events.append(f"R{i}.{k}({_show(d.result)})")
-                if beh[0] == "ret":
-                    d.result = _val(beh[1])
-                elif beh[0] == "raise":
-                    d.result = ("F", beh[1])
-            r = d.result
-            if isinstance(r, tuple) and r[0] == "D" and r[1] < len(ds):
-                x = ds[r[1]]
-                plain = x.result is not _NO and not (isinstance(x.result, tuple) and x.result[0] == "D")
-                if plain and not x.paused:
-                    d.result, x.result = x.result, None   # already has a result: take it
-                else:
-                    d.paused += 1                         # wait for it
-                    x.callbacks.append(("cont", i))
-                    return
-
-    out = []
-    nadd = 0
-    for o in case["ops"]:
-        events.clear()
-        kind, i = o[0], o[1]
-        if i >= len(ds):
-            out.append("-")
-            continue
-        d = ds[i]
-        if kind == "add":
-            d.callbacks.append(("pair", nadd, o[2], o[3]))
-            nadd += 1
-            if d.called:
-                run(i)
-        elif kind in ("cb", "eb"):
-            if d.called:
-                events.append("A")
-            else:
-                d.called = True
-                d.result = o[2] if kind == "cb" else ("F", o[2])
-                events.append(f"F{i}")
-                run(i)
-        elif kind == "pause":
-            d.paused += 1
-        elif kind == "unpause":
-            d.paused -= 1
-            if not d.paused and d.called:
-                run(i)
-        else:
-            raise ValueError("cancel is outside C01's alphabet")
-        out.append(",".join(events) if events else "-")
-    fin = []
-    for d in ds:
-        pend = [str(it[1]) for it in d.callbacks if it[0] == "pair"]
-        fin.append(f"{'T' if d.called else 'F'}:{'-' if d.result is _NO else _show(d.result)}:{d.paused}:[{','.join(pend)}]")
-    return " ".join(out) + " | " + " ".join(fin)
+# the recursive reference interpreter (documented rules, not the implementation's loop) lives in harness/deferredk.py
+reference = K.reference
 
 
 def _stranded(final):
@@ -123,6 +26,16 @@ def _stranded(final):
 
 def oracle(case, obs):
     body, _, final = obs.partition(" | ")
+    # a callback that raises ANY exception (also a BaseException that is not an Exception) must turn into a failure
+    # result for the next errback; nothing may escape from callback()/errback()/addCallback()/unpause()
+    for k, e in enumerate(body.split(" ")):
+        for tok in e.split(","):
+            if tok.startswith("!"):
+                n = int(tok[1:])
+                cls = K.exc_class(n).__name__
+                return Failure(case, f"op {k} {case['ops'][k]}: exception {cls} raised by a callback escaped from the "
+                               "call instead of becoming the Deferred's failure result",
+                               "callback-exception-escaped:" + ("base-exception" if n >= 100 else "exception"))
     want = reference(case)
     if want == obs:
         return None
@@ -154,6 +67,8 @@ LETTERS = {
     "0": ["cb", 0, 5],
     "1": ["cb", 1, 1],
     "E": ["eb", 0, 2],
+    "X": ["add", 0, ["raise", 102], ["raise", 100]],   # inner's callback raises SystemExit (errback: GeneratorExit)
+    "h": ["add", 0, None, ["ret", ["I", 4]]],          # an errback on the inner Deferred that recovers
     "P": ["pause", 1], "U": ["unpause", 1],
     "p": ["pause", 0], "u": ["unpause", 0],
 }
@@ -204,7 +119,7 @@ W = {"add": 6, "cb": 3, "eb": 1.5, "pause": 1.5, "unpause": 1.5}
 
 def gen(rng, tier):
     cases = []
-    letters = "Aa01PUpu" if tier == "quick" else "Aab01EPUpu"
+    letters = "Aa01PUpu" if tier == "quick" else "Aab01EXhPUpu"
     depth = 5 if tier == "quick" else 6
     for n in range(1, depth + 1):
         for word in itertools.product(letters, repeat=n):
@@ -231,6 +146,11 @@ def corpus():
         word_case("A1Pa0Ub"),
         word_case("A1p0au"),                   # inner paused by the user, fired, callbacks added, unpaused
         word_case("01A"),                      # inner already fired: its result is taken
+        word_case("A1Xh0a"),                   # a callback raising SystemExit: the next errback must get it
+        word_case("0XXha"),                    # GeneratorExit raised by an errback
+        {"canc": [["none"]] * 2, "ops": [["add", 1, ["ret", ["D", 0]], None], ["cb", 1, 1], ["add", 0, ["raise", 103], None],
+                                         ["add", 0, None, ["pass"]], ["add", 1, None, ["ret", ["I", 7]]], ["cb", 0, 2],
+                                         ["add", 0, ["raise", 101], ["raise", 104]], ["add", 0, ["pass"], ["pass"]]]},
         {"canc": [["none"]] * 3, "ops": [["add", 2, ["ret", ["D", 1]], None], ["add", 1, ["ret", ["D", 0]], None],
                                          ["cb", 2, 1], ["cb", 1, 2], ["add", 1, ["pass"], None], ["pause", 2],
                                          ["add", 0, ["raise", 1], None], ["cb", 0, 3], ["add", 1, None, ["ret", ["I", 4]]],
@@ -265,11 +185,12 @@ SPEC = Spec(
     histogram=histogram,
     describe=lambda c: {"n_deferreds": len(c["canc"]), "ops": c["ops"][:14]},
     rule="every program of length <= 3, 60% of length 4, 4% of length 5 (quick) / <= 4, 15% of 5, 1% of 6 over a "
-         "10-letter alphabet (thorough) on two Deferreds {outer callback returns inner, add pass-through callback to "
+         "12-letter alphabet (thorough) on two Deferreds {outer callback returns inner, add pass-through callback to "
          "inner / outer, fire inner / outer, pause / unpause inner / outer}; 1 500 (15 000) chain scenarios (2-5 "
          "Deferreds waiting on each other, late callbacks, pauses on waiting Deferreds, unbalanced unpauses); 1 000 "
          "(15 000) random programs over 1-6 Deferreds, 2-20 operations, callback behaviours {value, None, Failure, "
-         "Deferred d_i, raise, pass-through} on either or both sides.  non-trivial = at least one user callback ran; "
+         "Deferred d_i, raise (Exception subclasses and GeneratorExit / asyncio.CancelledError / SystemExit / "
+         "KeyboardInterrupt / a BaseException subclass), pass-through} on either or both sides.  non-trivial = at least one user callback ran; "
          "distinct by (case, observation)",
     trusted=["hand-written kernel model coq/Lib/DeferredK.v (tied by this correspondence run only)",
              "callbacks are fixed behaviours; callbacks that call back into Deferred methods are not modelled",
